@@ -262,7 +262,8 @@ func (g *gen) fingerprint(n int) {
 		}
 		// library: every body length 0, 4, 8, … gets fingerprinted over the run (a carry from the low into the high byte
 		// of the header length happens at 248/252 mod 256), with and without MESSAGE-INTEGRITY in front
-		for _, bodyLen := range []int{12 * i, 12*i + 4, 12*i + 8} {
+		// (over 400 cases the body lengths 0..4796 are all covered; then they repeat)
+		for _, bodyLen := range []int{12 * (i % 400), 12*(i%400) + 4, 12*(i%400) + 8} {
 			g.emit("NEW 2 %d %d", g.r.intn(3)*700, g.r.intn(256))
 			sw := fmt.Sprintf("type:%d:%d+tid:%s", g.r.intn(4096), g.r.intn(4), showHex(g.r.bytes(12)))
 			if bodyLen >= 4 {
